@@ -900,7 +900,7 @@ impl Engine for EnvSim {
     }
     fn runs(&self, tier: Tier) -> u64 {
         match tier {
-            Tier::Quick => 100_000,
+            Tier::Quick => 600_000,
             Tier::Thorough => 30_000_000,
         }
     }
